@@ -39,6 +39,9 @@ def firedResult (m : Machine) (act : CbId → Act) (ev : EventId) (tr : Transn) 
   unwrap ((groupCbs m ev tr .before).map (fun cb => (act cb).ret) ++
           (groupCbs m ev tr .on).map (fun cb => (act cb).ret))
 
+theorem activatePre_same (m : Machine) (t : Trigger) (tr : Transn) : Resp Same (activatePre nestedRtc m t tr) :=
+  activatePre_lift Same.lift m t tr fun ph _ _ cb _ => entryOk_true _ ph cb
+
 theorem tryCands_cons_match (h : Nested) (m : Machine) (t : Trigger) (tr : Transn) (rest : List Transn)
     (hm : tr.events.contains t.event = true) :
     tryCands h m t (tr :: rest) = (activate h m t tr >>= fun r =>
@@ -59,13 +62,59 @@ section
 variable {m : Machine} {t : Trigger} {act : CbId → Act} (B : Beh m t act)
 include B
 
+theorem pre_abort (tr : Transn) (x : Nat) (hv : firstRaise act tr.validators = some x) (c : Cfg) :
+    (activatePre nestedRtc m t tr c).2 = .error (.user x) := by
+  unfold activatePre
+  rw [bind_err (runGroup_err B _ rfl _ _ c x hv)]
+
+theorem pre_reject (tr : Transn) (hv : firstRaise act tr.validators = none)
+    (hg : ∀ p ∈ tr.conds, (act p.1).raises = none)
+    (hp : guardsPass m.truthy act tr.conds = false) (c : Cfg) :
+    (activatePre nestedRtc m t tr c).2 = .ok none := by
+  unfold activatePre
+  rw [bind_ok (runGroup_ok B _ rfl _ _ c hv)]
+  rw [bind_ok (runConds_res B _ rfl _ hg _)]
+  simp only [hp]
+  rfl
+
+theorem pre_pass (tr : Transn) (hv : firstRaise act tr.validators = none)
+    (hg : ∀ p ∈ tr.conds, (act p.1).raises = none)
+    (hp : guardsPass m.truthy act tr.conds = true)
+    (hb : firstRaise act (applicable t.event tr.before) = none)
+    (hx : firstRaise act (if tr.internal then [] else (stateDef m tr.source).exit) = none)
+    (ho : firstRaise act (applicable t.event tr.on) = none) (c : Cfg) :
+    (activatePre nestedRtc m t tr c).2 =
+      .ok (some (((applicable t.event tr.before).map fun cb => (act cb).ret) ++
+                 ((applicable t.event tr.on).map fun cb => (act cb).ret))) := by
+  unfold activatePre
+  rw [bind_ok (runGroup_ok B _ rfl _ _ c hv)]
+  rw [bind_ok (runConds_res B _ rfl _ hg _)]
+  simp only [hp, Bool.not_true, Bool.false_eq_true, ↓reduceIte]
+  rw [bind_ok (runGroup_ok B _ rfl _ _ _ hb)]
+  rw [bind_ok (runGroup_ok B _ rfl _ _ _ hx)]
+  rw [bind_ok (runGroup_ok B _ rfl _ _ _ ho)]
+  rfl
+
+theorem post_ok (tr : Transn)
+    (he : firstRaise act (if tr.internal then [] else (stateDef m tr.target).enter) = none)
+    (hf : firstRaise act (applicable t.event tr.after) = none) (c : Cfg) :
+    (activatePost nestedRtc m t tr c).2 = .ok () ∧
+    (activatePost nestedRtc m t tr c).1.cur = some (stateVal m tr.target) := by
+  unfold activatePost
+  rw [bind_ok (c := _) (a := ()) rfl]
+  rw [bind_ok (runGroup_ok B _ rfl _ _ _ he)]
+  rw [bind_ok (runGroup_ok B _ rfl _ _ _ hf)]
+  refine ⟨rfl, ?_⟩
+  simp only [EM.pure_apply]
+  rw [(runGroup_same m _ _ _ _).cur, (runGroup_same m _ _ _ _).cur]
+  rfl
+
 /-- a raising validator aborts: the exception escapes, the state is unchanged -/
 theorem activate_abort (tr : Transn) (x : Nat) (hv : firstRaise act tr.validators = some x) (c : Cfg) :
     (activate nestedRtc m t tr c).2 = .error (.user x) ∧ (activate nestedRtc m t tr c).1.cur = c.cur := by
   unfold activate
-
-  rw [bind_err (runGroup_err B _ rfl _ _ c x hv)]
-  exact ⟨rfl, (runGroup_same m _ _ _ c).cur⟩
+  rw [bind_err (pre_abort B tr x hv c)]
+  exact ⟨rfl, (activatePre_same m t tr c).cur⟩
 
 /-- failing guards reject the candidate: no action runs, the state is unchanged -/
 theorem activate_reject (tr : Transn) (hv : firstRaise act tr.validators = none)
@@ -73,15 +122,8 @@ theorem activate_reject (tr : Transn) (hv : firstRaise act tr.validators = none)
     (hp : guardsPass m.truthy act tr.conds = false) (c : Cfg) :
     (activate nestedRtc m t tr c).2 = .ok none ∧ (activate nestedRtc m t tr c).1.cur = c.cur := by
   unfold activate
-
-  rw [bind_ok (runGroup_ok B _ rfl _ _ c hv)]
-  rw [bind_ok (runConds_res B _ rfl _ hg _)]
-  simp only [hp]
-  refine ⟨rfl, ?_⟩
-  have h1 := (runGroup_same m (actCtx t tr) .validators tr.validators c).cur
-  have h2 := (runConds_same m (actCtx t tr) tr.conds
-    (runGroup nestedRtc m (actCtx t tr) .validators tr.validators c).1).cur
-  exact h2.trans h1
+  rw [bind_ok (pre_reject B tr hv hg hp c)]
+  exact ⟨rfl, (activatePre_same m t tr c).cur⟩
 
 /-- passing guards fire the transition: target state, documented result -/
 theorem activate_fire (tr : Transn) (hv : firstRaise act tr.validators = none)
@@ -102,20 +144,16 @@ theorem activate_fire (tr : Transn) (hv : firstRaise act tr.validators = none)
     (firstRaise_none_iff _ _).2 fun cb h => ha cb (by simp [actionCbs, h])
   simp only [groupCbs] at hb hx ho he hf
   unfold activate
+  rw [bind_ok (pre_pass B tr hv hg hp hb hx ho c)]
+  simp only
+  have := post_ok B tr he hf (activatePre nestedRtc m t tr c).1
+  rw [bind_ok this.1]
+  exact ⟨rfl, this.2⟩
+end
 
-  rw [bind_ok (runGroup_ok B _ rfl _ _ c hv)]
-  rw [bind_ok (runConds_res B _ rfl _ hg _)]
-  simp only [hp, Bool.not_true, Bool.false_eq_true, ↓reduceIte]
-  rw [bind_ok (runGroup_ok B _ rfl _ _ _ hb)]
-  rw [bind_ok (runGroup_ok B _ rfl _ _ _ hx)]
-  rw [bind_ok (runGroup_ok B _ rfl _ _ _ ho)]
-  rw [bind_ok (c := _) (a := ()) rfl]
-  rw [bind_ok (runGroup_ok B _ rfl _ _ _ he)]
-  rw [bind_ok (runGroup_ok B _ rfl _ _ _ hf)]
-  refine ⟨rfl, ?_⟩
-  simp only [EM.pure_apply]
-  rw [(runGroup_same m _ _ _ _).cur, (runGroup_same m _ _ _ _).cur]
-  rfl
+section
+variable {m : Machine} {t : Trigger} {act : CbId → Act} (B : Beh m t act)
+include B
 
 /-- **C01 (candidate loop).** The engine's candidate loop realises `choose`. -/
 theorem tryCands_choose (trs : List Transn)
